@@ -202,7 +202,7 @@ def result_case(draw):
                     else draw(gen.spd(n_m)) if vk == 'cov'
                     else draw(gen.pos_vector(n_m)) if vk == 'vec'
                     else [draw(gen.spd(n_m + 2)) for _ in range(3)]),
-            'dof': draw(st.integers(1, 12)),
+            'dof': draw(st.sampled_from([0, 1, 1, 2, 3, 5, 8, 12])),
             'nc': draw(gen.vector(2, kind='pos')),
             'nc_per_boot': draw(st.booleans()),
             'cv_method': draw(st.sampled_from(['fixed', 'bootstrap', 'bootstrap_rdm', 'bootstrap_pattern',
